@@ -178,3 +178,7 @@ CONTRACTS['efficiency_wei'].callees = {
     'invert': _callee_invert,
     'distance_inv_wei': callee_from_clauses('distance_inv_wei', ['G'], _DIW.requires, [c for c in _DIW.ensures if c[0] != 'argument-untouched'], [('mat', 'n0', 'n0')], ghosts={'n0': 'len(G)'}),
 }
+
+for _k in ('distance_wei', 'distance_wei:edges'):
+    CONTRACTS[_k].inputs = [('G', 'G0', 'mat', 'n0c')]
+CONTRACTS['efficiency_wei'].inputs = [('Gw', 'Gw0', 'mat', 'n0c')]
